@@ -20,7 +20,9 @@ RULE = ("packets drawn field-by-field over the full width of every field (edge v
         "random), 0-3 arguments present as a prefix plus a malformed stream (fields beyond "
         "their width, argument gaps) and random byte strings of length 0-60 decoded with "
         "n_args 0-4; a case is non-trivial when it is in range with >= 1 argument or a "
-        "decode whose payload ends inside the argument words; one encode in five re-uses ONE packet object "
+        "decode whose payload ends inside the argument words; constructors called by keyword, positionally in the "
+        "documented order, with IntEnum members for the integers and bytearray payloads; decoders given bytes, "
+        "bytearray or memoryview; one encode in five re-uses ONE packet object "
         "(built and encoded with other values, then every field assigned, then encoded again); all encodes run in "
         "one process, failed encodes included; plus twin groups: 3-8 packets equal in every field but one (and exact "
         "repeats), the documented layout of each decoded by the implementation one after the other; distinct = distinct canonical JSON")
@@ -77,7 +79,7 @@ def in_range(p):
     return present == sorted(present, reverse=True)
 
 
-def impl_encode(kind, p, reuse_from=None):
+def impl_encode(kind, p, reuse_from=None, how=None):
     from rig.machine_control import packets
     if reuse_from is not None:
         # ONE packet object: built and encoded with other field values first, then every field is
@@ -105,13 +107,34 @@ def impl_encode(kind, p, reuse_from=None):
               dest_cpu=p["dest_cpu"], src_port=p["src_port"], src_cpu=p["src_cpu"],
               dest_x=p["dest_x"], dest_y=p["dest_y"], src_x=p["src_x"], src_y=p["src_y"],
               data=bytes(p["data"]))
+    if how == "enum":
+        # integers arrive as IntEnum members (commands, return codes and ports are enums in rig), the
+        # payload as a bytearray
+        import enum
+        kw = {k: (enum.IntEnum("E", {"v": v})["v"] if isinstance(v, int) and not isinstance(v, bool) and v >= 0 else v)
+              for k, v in kw.items()}
+        kw["data"] = bytearray(p["data"])
     try:
         if kind == "sdp":
+            if how == "pos":
+                return {"ok": list(packets.SDPPacket(*[kw[k] for k in SDP_ORDER]).bytestring)}
             return {"ok": list(packets.SDPPacket(**kw).bytestring)}
-        kw.update(cmd_rc=p["cmd_rc"], seq=p["seq"], arg1=p["arg1"], arg2=p["arg2"], arg3=p["arg3"])
+        scp = dict(cmd_rc=p["cmd_rc"], seq=p["seq"], arg1=p["arg1"], arg2=p["arg2"], arg3=p["arg3"])
+        if how == "enum":
+            import enum
+            scp = {k: (enum.IntEnum("E", {"v": v})["v"] if isinstance(v, int) and v >= 0 else v) for k, v in scp.items()}
+        kw.update(scp)
+        if how == "pos":
+            return {"ok": list(packets.SCPPacket(*[kw[k] for k in SCP_ORDER]).bytestring)}
         return {"ok": list(packets.SCPPacket(**kw).bytestring)}
     except struct.error:
         return {"err": "struct.error"}
+
+
+# the documented (public) parameter order of the two constructors
+SDP_ORDER = ["reply_expected", "tag", "dest_port", "dest_cpu", "src_port", "src_cpu",
+             "dest_x", "dest_y", "src_x", "src_y", "data"]
+SCP_ORDER = SDP_ORDER[:-1] + ["cmd_rc", "seq", "arg1", "arg2", "arg3", "data"]
 
 
 def pkt_fields(pk, scp):
@@ -124,12 +147,13 @@ def pkt_fields(pk, scp):
     return d
 
 
-def impl_decode(kind, bs, n_args):
+def impl_decode(kind, bs, n_args, buf=None):
     from rig.machine_control import packets
+    raw = {"bytearray": bytearray, "memoryview": lambda b: memoryview(bytes(b))}.get(buf, bytes)(bs)
     try:
         if kind == "sdp":
-            return {"ok": pkt_fields(packets.SDPPacket.from_bytestring(bytes(bs)), False)}
-        return {"ok": pkt_fields(packets.SCPPacket.from_bytestring(bytes(bs), n_args), True)}
+            return {"ok": pkt_fields(packets.SDPPacket.from_bytestring(raw), False)}
+        return {"ok": pkt_fields(packets.SCPPacket.from_bytestring(raw, n_args), True)}
     except struct.error:
         return {"err": "struct.error"}
 
@@ -143,7 +167,7 @@ def eval_cases(ctx, cases):
             if failed is not None and "after_failed_encode" not in c:
                 # all encodes run in one process: an encode that raised comes before this one (kept for the replay)
                 c["after_failed_encode"] = failed
-            c["impl"] = impl_encode(c["proto"], c["pkt"], c.get("reuse_from"))
+            c["impl"] = impl_encode(c["proto"], c["pkt"], c.get("reuse_from"), c.get("how"))
             failed = {"proto": c["proto"], "pkt": c["pkt"]} if "err" in c["impl"] else None
             reqs.append(dict(c["pkt"], suite="c15", op="enc_" + c["proto"]))
             idx.append((c, "model"))
@@ -151,7 +175,7 @@ def eval_cases(ctx, cases):
                 reqs.append(dict(c["pkt"], suite="c15", op="layout_" + c["proto"]))
                 idx.append((c, "layout"))
         else:
-            c["impl"] = impl_decode(c["proto"], c["bytes"], c["n_args"])
+            c["impl"] = impl_decode(c["proto"], c["bytes"], c["n_args"], c.get("buf"))
             reqs.append({"suite": "c15", "op": "dec_" + c["proto"], "bytes": c["bytes"], "n_args": c["n_args"]})
             idx.append((c, "model"))
     for (c, what), r in zip(idx, ctx.lean(reqs)):
@@ -209,11 +233,15 @@ def gen_cases(ctx, n):
                           "pkt": gen_packet(rng, rng.random() < 0.15)})
             if rng.random() < 0.2:
                 cases[-1]["reuse_from"] = gen_packet(rng, rng.random() < 0.15)
+            elif rng.random() < 0.35:
+                cases[-1]["how"] = rng.choice(["pos", "enum"])
         else:
             ln = rng.choice([0, 5, 9, 10, 13, 14, 15, 17, 18, 21, 22, 25, 26, 27, 30, 60])
             cases.append({"kind": "dec", "proto": rng.choice(["sdp", "scp", "scp"]),
                           "bytes": [rng.randrange(256) for _ in range(ln)],
                           "n_args": rng.randrange(5)})
+            if rng.random() < 0.3:
+                cases[-1]["buf"] = rng.choice(["bytearray", "memoryview"])
     return cases
 
 
